@@ -257,7 +257,8 @@ def run(prog: Program, res: Result, tier: str) -> None:
     (res.ok if ok else res.bad)("R7", fi.methods["from_dict"], fi.node, "FileInfo carries each file's own hdrlen/datalen/nsamples taken by name from its parsed header" if ok else
                                 "FileInfo no longer takes hdrlen/datalen/nsamples by name from the parsed header", construct="FileInfo", key="sinfo:fileinfo")
     frd = prog.func(FIO, "FileReader.__init__")
-    ok = any(e.text() == canon("super().__init__(self.sinfo.get_info_list('filename'), mode)") for e in normal_form(frd).exprs()) and \
+    ok = any(e.text() in (canon("super().__init__(self.sinfo.get_info_list('filename'), mode)"), canon("super().__init__(sinfo.get_info_list('filename'), mode)"))
+             for e in normal_form(frd).exprs()) and \
         any(e.text() == "sinfo" for e in normal_form(frd).sets("self.sinfo"))
     (res.ok if ok else res.bad)("R7", frd, frd.node, "the reader opens exactly the files of the stream table, in table order" if ok else
                                 "FileReader no longer opens the stream table's files in order", construct="FileReader.__init__", key="sinfo:files")
